@@ -102,15 +102,24 @@ try:
     fb = cffi.FFI()
     fb.cdef("""
         struct p14 { short x; double y; };
+        struct small14 { int a, b; };
+        union tiny14 { int i; unsigned char ch[4]; };
         extern "Python" long long ep_mix(signed char, unsigned short, int, long long, float, double, void *, struct p14);
         extern "Python" int ep_fail(int);
+        extern "Python" int ep_small(int, struct small14, union tiny14, int);
         long long call_mix(signed char, unsigned short, int, long long, float, double, void *, struct p14);
         int call_fail(int);
+        int call_small(int, int, int, int, int);
     """)
     fb.set_source("_c14_mod", """
         struct p14 { short x; double y; };
+        struct small14 { int a, b; };
+        union tiny14 { int i; unsigned char ch[4]; };
         static long long ep_mix(signed char, unsigned short, int, long long, float, double, void *, struct p14);
         static int ep_fail(int);
+        static int ep_small(int, struct small14, union tiny14, int);
+        int call_small(int k, int a, int b, int u, int z)
+        { struct small14 s; union tiny14 t; s.a = a; s.b = b; t.i = u; return ep_small(k, s, t, z); }
         long long call_mix(signed char a, unsigned short b, int c, long long d, float e, double f, void *g, struct p14 h)
         { return ep_mix(a, b, c, d, e, f, g, h); }
         int call_fail(int v) { return ep_fail(v) + 1000; }
@@ -130,6 +139,12 @@ try:
     @f2.def_extern(error=-9)
     def ep_fail(v):
         raise KeyError(v)
+    small_seen = []
+
+    @f2.def_extern()
+    def ep_small(k, s, t, z):
+        small_seen.append((k, s.a, s.b, t.i, z))
+        return 1
     buf = f2.new("char[4]")
     pv = f2.cast("void *", buf)
     st = f2.new("struct p14 *", [-5, 2.5])
@@ -138,6 +153,9 @@ try:
         r2 = l2.call_fail(3)
     if r != 2**62 - 1 or got != [(-7, 65000, -2**31, 2**62, 1.25, -3.5e200, pv, -5, 2.5)]:
         bad.append("extern Python: Python saw %r, result %r" % (got, r))
+    l2.call_small(7, 201, -202, 0x01020304, 8)
+    if small_seen != [(7, 201, -202, 0x01020304, 8)]:
+        bad.append("extern Python with small struct/union arguments by value: Python saw %r" % (small_seen,))
     if r2 != 1000 - 9:
         bad.append("extern Python raising: the C caller received %r, expected the declared error value -9" % (r2 - 1000))
 finally:
